@@ -191,7 +191,7 @@ theorem inv_step {tbl : List (α × α)} (hinj : TableInj tbl) {s s' : St α} {l
           Option.toList_some, List.map_nil, List.count_nil] at this ⊢
         omega
       · exact inv
-    | rxMatch found =>
+    | rxMatch found took =>
       simp only [stepF]
       simp only [enabled] at hen
       split
@@ -199,9 +199,9 @@ theorem inv_step {tbl : List (α × α)} (hinj : TableInj tbl) {s s' : St α} {l
         rw [hl] at hen
         simp only [Bool.and_eq_true, beq_iff_eq, Option.isNone_iff_eq_none, lockFree, Bool.not_true, Bool.false_or,
           Bool.or_eq_true] at hen
-        obtain ⟨⟨hset, hlock'⟩, hfound⟩ := hen
+        obtain ⟨⟨⟨hset, hlock'⟩, hfound⟩, htook⟩ := hen
         unfold rxMatchF
-        simp only [hfound, if_true]
+        simp only [hfound, htook, and_self, if_true]
         split
         · next e hm =>
           have hlock : s.txTest = none := by
@@ -255,15 +255,17 @@ theorem inv_step {tbl : List (α × α)} (hinj : TableInj tbl) {s s' : St α} {l
       split
       · exact ⟨inv.keys, inv.ans, inv.ansSet, inv.park, inv.parkHold, inv.seqs⟩
       · exact inv
-    | rxCleanup removed =>
+    | rxCleanup removed took =>
       simp only [stepF]
       simp only [enabled] at hen
       split
       · next i hc =>
         rw [hc] at hen
-        simp only [Bool.and_eq_true, lockFree, Bool.not_true, Bool.false_or, Option.isNone_iff_eq_none] at hen
-        have hlock := hen.1
+        simp only [Bool.and_eq_true, lockFree, Bool.not_true, Bool.false_or, Option.isNone_iff_eq_none,
+          beq_iff_eq] at hen
+        have hlock := hen.1.1
         unfold rxCleanupF
+        simp only [hen.1.2, hen.2, and_self, if_true]
         split
         · split
           · refine ⟨?_, inv.ans, inv.ansSet, ?_, ?_, inv.seqs⟩
